@@ -36,10 +36,13 @@ Definition node_isinst (nd : pynode) (k : pycls) : bool :=
 (* node.n : only ast.Num has it *)
 Definition node_attr_n (nd : pynode) : option Z := match nd with NE (Num z) => Some z | _ => None end.
 
+(* case analysis on every integer comparison, then reflexivity / lia: insensitive to harmless rewrites of the source
+   such as min(a, b) -> min(b, a) *)
 Ltac zb := repeat match goal with
   | |- context [Z.eqb ?a ?b] => let E := fresh "E" in destruct (Z.eqb a b) eqn:E
   | |- context [Z.ltb ?a ?b] => let E := fresh "E" in destruct (Z.ltb a b) eqn:E
   | |- context [Z.leb ?a ?b] => let E := fresh "E" in destruct (Z.leb a b) eqn:E
   | |- context [Z.gtb ?a ?b] => let E := fresh "E" in destruct (Z.gtb a b) eqn:E
   | |- context [Z.geb ?a ?b] => let E := fresh "E" in destruct (Z.geb a b) eqn:E
-  end; cbn [negb andb orb of_eres of_cres of_opt pb2z b2z]; try reflexivity; try lia.
+  end; cbn [negb andb orb of_eres of_cres of_opt pb2z b2z]; try reflexivity; try lia;
+  try (repeat match goal with |- SRet _ = SRet _ => apply f_equal | |- (_, _) = (_, _) => apply f_equal2 end; lia).
